@@ -879,7 +879,14 @@ pub fn mutate_scenario(sc: &mut Scenario, seed: u64) {
                     }
                     _ => {
                         sc.sched.policy = match r.below(5) {
-                            4 => Policy::Stall { victim: 1 + r.below(8) as u8, nth: r.below(8) as u8, stay: [223u8, 247][r.below(2)] },
+                            4 => {
+                                if r.below(2) == 0 {
+                                    Policy::Stall { victim: 1 + r.below(8) as u8, nth: r.below(8) as u8, stay: [223u8, 247][r.below(2)] }
+                                } else {
+                                    let k = crate::gen::POPULATION_CALLS[r.below(crate::gen::POPULATION_CALLS.len())];
+                                    Policy::StallCall { victim: 1 + r.below(8) as u8, kind: k, nth: r.below(48) as u8, stay: [223u8, 247][r.below(2)] }
+                                }
+                            }
                             0 => Policy::Walk { stay: [127u8, 223, 247][r.below(3)], target: None, stay_target: 127 },
                             1 => Policy::Walk { stay: 247, target: Some(r.below(28) as u8), stay_target: 100 },
                             2 => Policy::Walk { stay: 239, target: Some(crate::rt::TARGET_PAYLOAD), stay_target: 40 },
